@@ -65,6 +65,9 @@ class Unclassified(Exception):
     pass
 
 
+LOSSY_CONVERSIONS = {"to_f32", "to_i8", "to_i16", "to_i32", "to_i64", "to_isize", "to_u8", "to_u16", "to_u32", "to_u64", "to_usize", "round", "floor", "ceil", "trunc"}
+
+
 class Guard:
     """Evaluates, for one parameter path `f`, the region of values of f on which the body returns Err,
     all other parameters being fixed at a valid witness."""
@@ -82,6 +85,52 @@ class Guard:
         self.opaque = set()
         self.relations = set()
         self.full = Region.full(f_integer, unsigned=f_integer)
+        self.lossy_locals = {}   # local id -> conversion name: bound to a narrowed copy of a parameter
+        self.lossy_tests = set()  # (path, conversion): a range test evaluated on a narrowed copy
+
+    # ---- narrowing conversions: a range test must look at the parameter itself
+    def lossy(self, n):
+        """name of a narrowing conversion applied to the operand n on its way from the parameter field, or None.
+        f64/F -> f32 and float -> integer lose values (1e-50 becomes 0, 1 + 1e-12 becomes 1): the test then accepts
+        or rejects by the rounded copy."""
+        n = strip(n)
+        while isinstance(n, dict):
+            kk = n.get("k")
+            if kk in ("Ref",) or (kk == "Unary" and n["op"] == "*"):
+                n = strip(n["e"])
+                continue
+            if kk == "Cast":
+                tt = (self.c.ty(n.get("t")) or "").strip()
+                st = (self.c.ty(strip(n["e"]).get("t")) or "").strip().lstrip("&")
+                src_float = st in ("f64", "F", "f32") or len(st) == 1
+                if (tt == "f32" and st != "f32" and src_float) or (tt in INT_TYPES and src_float):
+                    return "as " + tt
+                n = strip(n["e"])
+                continue
+            if kk == "MethodCall":
+                if n["name"] in LOSSY_CONVERSIONS and not n["args"]:
+                    st = (self.c.ty(peel_refs(n["recv"]).get("t")) or "").strip().lstrip("&")
+                    if not (n["name"] == "to_f32" and st == "f32") and st not in INT_TYPES:
+                        return n["name"]
+                if not n["args"] and n["name"] in ("unwrap", "as_ref", "clone", "abs", "to_f64"):
+                    n = strip(n["recv"])
+                    continue
+                return None
+            if kk == "Call" and len(n["args"]) == 1:
+                f = strip(n["f"])
+                d = self.c.dfn(f.get("def")) if f["k"] == "Path" else None
+                if d and d["name"] in LOSSY_CONVERSIONS:
+                    return d["name"]
+                return None
+            if kk == "Path" and "local" in n:
+                return self.lossy_locals.get(n["local"])
+            return None
+        return None
+
+    def note_lossy(self, path, n):
+        cv = self.lossy(n)
+        if cv is not None and path is not None:
+            self.lossy_tests.add((path, cv))
 
     # ---- paths
     def path_of(self, n):
@@ -102,6 +151,8 @@ class Guard:
                 b = ""
             return (b + "." if b else "") + n["name"]
         if n["k"] == "MethodCall" and not n["args"] and n["name"] in ("as_ref", "unwrap", "clone"):
+            return self.path_of(n["recv"])
+        if n["k"] == "MethodCall" and not n["args"] and (n["name"] in LOSSY_CONVERSIONS or n["name"] == "to_f64"):
             return self.path_of(n["recv"])
         return None
 
@@ -166,8 +217,10 @@ class Guard:
                 lc, rc = self.const_of(n["l"]), self.const_of(n["r"])
                 flip = {"<": ">", ">": "<", "<=": ">=", ">=": "<=", "==": "==", "!=": "!="}
                 if lp is not None and rc is not None:
+                    self.note_lossy(lp, n["l"])
                     return self.value_region(lp, op, rc, peel_refs(n["l"]))
                 if rp is not None and lc is not None:
+                    self.note_lossy(rp, n["r"])
                     return self.value_region(rp, flip[op], lc, peel_refs(n["r"]))
                 if lp is not None and rp is not None:
                     self.note_path(lp, peel_refs(n["l"]))
@@ -193,6 +246,8 @@ class Guard:
                     return Region.empty(self.integer)
             if p is not None and not n["args"]:
                 node = peel_refs(n["recv"])
+                if name in ("is_negative", "is_sign_negative", "is_positive", "is_sign_positive", "is_zero"):
+                    self.note_lossy(p, n["recv"])
                 if name in ("is_negative", "is_sign_negative"):
                     return self.value_region(p, "<", Fraction(0), node)
                 if name in ("is_positive", "is_sign_positive"):
@@ -210,6 +265,7 @@ class Guard:
                 p = self.path_of(n["args"][0])
                 if rng and p is not None:
                     lo, hi, hc = rng
+                    self.note_lossy(p, n["args"][0])
                     node = peel_refs(n["args"][0])
                     return self.value_region(p, ">=", lo, node).intersect(self.value_region(p, "<=" if hc else "<", hi, node))
             if name in ("any", "all") and len(n["args"]) == 1:
@@ -373,6 +429,10 @@ class Guard:
                 p = self.path_of(init)
                 if p is not None:
                     self.pat(s["pat"], p)
+                    cv = self.lossy(init)
+                    if cv is not None:
+                        for b in pat_bindings(s["pat"]):
+                            self.lossy_locals[b["local"]] = cv
                     return inp
                 self.effect(init)
             return inp
@@ -488,7 +548,11 @@ def analyse_check_ref(fn, builder, table):
         regions[p] = (g.ok, integer, types.get(p))
         rel |= g.relations
         opaque |= g.opaque
+        LOSSY_FOUND.setdefault(id(fn), set()).update(g.lossy_tests)
     return regions, rel, opaque, wit
+
+
+LOSSY_FOUND = {}
 
 
 def canon_rel(r):
@@ -519,6 +583,9 @@ def rule_range(ctx):
         except Unclassified as e:
             res.undecided("%s : unclassified-guard" % key, "guard structure not understood (fail closed): %s" % e, fn_loc(fn))
             continue
+        for (lp_, cv_) in sorted(LOSSY_FOUND.get(id(fn), ())):
+            res.instance("%s : %s tested on itself" % (key, lp_))
+            res.violate("%s : test-on-converted-value:%s" % (key, lp_), "the range test of `%s` is evaluated on a narrowed copy (`%s`): values that round across the bound (1e-50 -> 0, 1 + 1e-12 -> 1) are accepted or rejected by the copy, not by the parameter" % (lp_, cv_), fn_loc(fn))
         for p in sorted(regions):
             got, integer, ty = regions[p]
             want = parse_spec(table.get(p, "any"), integer).intersect(Region.full(integer, unsigned=integer))
